@@ -362,6 +362,13 @@ func (runInfo *runInfoStruct) invokeMemberExpr(expr *ast.MemberExpr) {
 		return
 	}
 
+	if runInfo.rv.Kind() == reflect.Interface {
+		// a nil value of an interface type (a nil error returned by a Go function) has no members
+		runInfo.err = newStringError(expr, "type interface does not support member operation")
+		runInfo.rv = nilValue
+		return
+	}
+
 	value := runInfo.rv.MethodByName(expr.Name)
 	if value.IsValid() {
 		runInfo.rv = value
